@@ -157,6 +157,13 @@ def enc(w, val):
         else:
             body = [enc(w, m) for m in members]
         return {"hash-container": type(val).__name__, "members": body, "every-member-found": finds}
+    if isinstance(val, bytes) and len(val) <= 1:
+        # the interpreter keeps ONE object for b"" and for each one-byte value:
+        # a copy legitimately shares what the original (built by arithmetic)
+        # happened to hold twice.  Values, not containers.
+        return {"bytes": [len(val), engine.h64(val.hex() + str(len(val)))]}
+    if isinstance(val, tuple) and not val:
+        return {"tuple": []}
     if isinstance(val, (list, tuple, dict, bytes, bytearray)):
         # "shared objects still shared": containers are numbered by first
         # visit (a deterministic order: objects by canonical label, attributes
